@@ -804,7 +804,9 @@ def feature_shape(f):
     if f is None:
         return None
     if f['kind'] == 'attr':
+        dd = ('literal+explicit' if f.get('default_literal') is not None and f.get('default') is not None else
+              'literal' if f.get('default_literal') is not None else 'explicit' if f.get('default') is not None else None)
         return {'kind': 'attr', 'many': f['many'], 'unique': bool(f['unique']) if f['many'] else None,
-                'type': f['type'], 'iD': bool(f.get('iD'))}
+                'type': f['type'], 'iD': bool(f.get('iD')), 'declared_default': dd}
     return {'kind': 'ref', 'many': f['many'], 'unique': bool(f['unique']) if f['many'] else None,
             'containment': f['containment'], 'opposite': bool(f['opposite'])}
